@@ -221,9 +221,10 @@ class Evaluator:
                missing from the map is given the sort found at its first SETL (recorded).
     """
 
-    def __init__(self, locals_w=None, op_widths=None, strict_locals=False):
+    def __init__(self, locals_w=None, op_widths=None, strict_locals=False, cvars=None):
         self.locals_w = dict(locals_w or {})
         self.op_widths = dict(op_widths or {})   # register operand variable -> width
+        self.cvars = dict(cvars or {})           # C variable holding an IL node -> its sort
         self.let_scope = []
         self.strict_locals = strict_locals
         self.atom_uses = []
@@ -265,6 +266,10 @@ class Evaluator:
                 return Val(("ext", n))
             if n in ("true", "false"):
                 return Val("cint", 1 if n == "true" else 0)
+            if n in self.cvars:
+                srt = self.cvars[n]
+                self.cvar_uses = getattr(self, "cvar_uses", []) + [n]
+                return Val(srt, z3.BitVec(f"cvar_{n}", srt[1]) if is_bv(srt) and isinstance(srt[1], int) else (z3.Bool(f"cvar_{n}") if srt == "bool" else None))
             return Val(("ext", "cvar:" + n))
         if k == "addr":
             return Val(("ext", "addr"))
